@@ -52,7 +52,8 @@ Definition packet_order (p : packet) (b : bytes) : list (bytes * bytes) :=
   | None => pxattrs p
   end.
 
-(* kind 2001: (sel value) -> (bytes size).  Model: encode (in the emitted entry order) and size.
+(* kind 2001: (sel value) -> (bytes size); sel bit 0 = Stat / Packet, the other bits select the real
+   encode path (every path must produce the same bytes and agree with SizeVT).  Model: encode (in the emitted entry order) and size.
    Spec: the model DEcoder maps the real bytes back to the value (no unknown fields), and the
    real SizeVT is the real length. *)
 Definition run_2001 (input impl : sx) : sx :=
@@ -60,7 +61,7 @@ Definition run_2001 (input impl : sx) : sx :=
   | SL [SN sel; v] =>
     let implb := match impl with SL [SB b; SN _] => Some b | _ => None end in
     let impln := match impl with SL [SB _; SN n] => Some n | _ => None end in
-    if (sel =? 0) || (sel =? 2) then
+    if negb (N.testbit sel 0) then
       match dec_stat v with
       | None => v_malformed
       | Some s =>
@@ -215,15 +216,38 @@ Fixpoint frames_ord (ps : list packet) (os : list (list (bytes * bytes))) : byte
     let o := match os with o :: _ => order_or (pxattrs p) o | [] => pxattrs p end in
     frame (encode_packet_ord o p) ++ frames_ord ps' (match os with _ :: os' => os' | [] => [] end)
   end.
-(* cut [s] into pieces of the given lengths; what is left is the last piece *)
-Fixpoint fragment (s : bytes) (lens : list N) : list bytes :=
+(* a piece of the reader: #n, or (#n #flag) with flag 1 = io.EOF, 2 = another error *)
+Definition dec_piece (s : sx) : option (N * rerr) :=
+  match s with
+  | SN n => Some (n, RNone)
+  | SL [SN n; SN f] => Some (n, if f =? 1 then REof else if f =? 2 then RErr else RNone)
+  | _ => None
+  end.
+(* cut [s] into pieces of the given lengths, each with the error its exhausting Read reports;
+   what is left is the last piece; nothing follows the piece that exhausts the data *)
+Fixpoint fragment (s : bytes) (lens : list (N * rerr)) : list (bytes * rerr) :=
   match lens with
-  | [] => match s with [] => [] | _ => [s] end
-  | n :: r =>
+  | [] => match s with [] => [] | _ => [(s, RNone)] end
+  | (n, f) :: r =>
     match s with
     | [] => []
-    | _ => if n <=? len s then firstn (N.to_nat n) s :: fragment (skipn (N.to_nat n) s) r else [s]
+    | _ => if n <=? len s then (firstn (N.to_nat n) s, f) :: fragment (skipn (N.to_nat n) s) r else [(s, f)]
     end
+  end.
+(* mode bit 3: the Read that delivers the final bytes reports io.EOF (unless the piece has an
+   error of its own) *)
+Fixpoint eof_with_last (cs : list (bytes * rerr)) : list (bytes * rerr) :=
+  match cs with
+  | [] => []
+  | [(c, f)] => [(c, match f with RNone => REof | _ => f end)]
+  | x :: r => x :: eof_with_last r
+  end.
+(* executable form of Framing.tail_flagged *)
+Fixpoint tail_flagged_b (cs : list (bytes * rerr)) : bool :=
+  match cs with
+  | [] => true
+  | [(c, f)] => match f with RErr => negb (len c =? 0) | _ => true end
+  | (_, f) :: r => match f with RNone => tail_flagged_b r | _ => false end
   end.
 Definition res_items (l : list (option packet)) : sx :=
   SL (map (fun o => match o with Some p => SL [enc_packet p] | None => SL [SN 0] end) l).
@@ -235,30 +259,91 @@ Fixpoint items_eqb (got : list sx) (sent : list packet) : bool :=
   | _, _ => false
   end.
 
+(* what was received is a prefix of what was sent, followed by at most one error item *)
+Fixpoint items_prefixb (got : list sx) (sent : list packet) : bool :=
+  match got with
+  | [] => true
+  | [SL [SN 0]] => true
+  | SL [g] :: got' =>
+    match sent with
+    | p :: sent' =>
+      match dec_packet g with Some p' => packet_eqb p' p && items_prefixb got' sent' | None => false end
+    | [] => false
+    end
+  | _ => false
+  end.
+
+(* one stream: model output and specification verdict for what the implementation reports *)
+Definition framing_case (mode : N) (msgs : list packet) (ls : list (N * rerr)) (rest : list sx) (impl : sx)
+  : sx * bool :=
+  let impl_stream := match impl with SL [SB s; _] => s | _ => [] end in
+  let full := frames_ord msgs (stream_orders (S (length msgs)) impl_stream) in
+  let truncated := N.testbit mode 2 in
+  let stream :=
+    if truncated then
+      match rest with
+      | [SN cut] => if cut <? len full then firstn (N.to_nat cut) full else full
+      | _ => full
+      end
+    else full in
+  let chunks0 := fragment stream ls in
+  let chunks := if N.testbit mode 3 then eof_with_last chunks0 else chunks0 in
+  let m := SL [SB full; res_items (recv_msgs_x chunks)] in
+  (* a harness anomaly — (#ffff msg) panic, (#fffe) hang, (#fffd ..) aliasing / send error —
+     is never an acceptable outcome.  A complete stream through a reader that reports an
+     error at most with its last piece (Framing.tail_flagged: the hypothesis of
+     recv_all_fragmentation_x) must be received entirely; otherwise (cut stream, error in
+     mid-stream) no wrong packet may appear: a prefix, then at most one error *)
+  let sp := match impl with
+            | SL [SB _; SL got] =>
+              if negb truncated && tail_flagged_b chunks then items_eqb got msgs
+              else items_prefixb got msgs
+            | _ => false
+            end in
+  (m, sp).
+
 Definition run_2004 (input impl : sx) : sx :=
   match input with
   | SL (SN mode :: ps :: lens :: rest) =>
-    match sx_list dec_packet ps, sx_list sx_N lens with
+    match sx_list dec_packet ps, sx_list dec_piece lens with
     | Some msgs, Some ls =>
-      let impl_stream := match impl with SL [SB s; _] => s | _ => [] end in
-      let full := frames_ord msgs (stream_orders (S (length msgs)) impl_stream) in
-      let truncated := N.testbit mode 2 in
-      let stream :=
-        if truncated then
-          match rest with
-          | [SN cut] => if cut <? len full then firstn (N.to_nat cut) full else full
-          | _ => full
-          end
-        else full in
-      let m := SL [SB full; res_items (recv_msgs (fragment stream ls))] in
-      (* a harness anomaly — (#ffff msg) panic, (#fffe) hang, (#fffd ..) aliasing / send error —
-         is never an acceptable outcome, truncated stream or not *)
-      let sp := match impl with
-                | SL [SB _; SL got] => if truncated then true else items_eqb got msgs
-                | _ => false
-                end in
-      verdict m impl sp (SL [])
+      let r := framing_case mode msgs ls rest impl in
+      verdict (fst r) impl (snd r) (SL [])
     | _, _ => v_malformed
+    end
+  | _ => v_malformed
+  end.
+
+(* kind 2007: (mode ((packets lens)..) schedule) -> ((full-stream (item..))..), several
+   protoStreams in one process with interleaved RecvMsg calls.  The buffer pool they share is
+   outside the model: whatever the schedule, EVERY stream is judged on its own exactly as in
+   kind 2004 (model: recv_msgs_x on its own pieces; specification: it receives what was sent
+   on it). *)
+Definition dec_stream (s : sx) : option (list packet * list (N * rerr)) :=
+  match s with
+  | SL [ps; lens] => msgs <- sx_list dec_packet ps ;; ls <- sx_list dec_piece lens ;; Some (msgs, ls)
+  | _ => None
+  end.
+Fixpoint streams_cases (mode : N) (ss : list (list packet * list (N * rerr))) (impls : list sx) : list sx * bool :=
+  match ss with
+  | [] => ([], match impls with [] => true | _ => false end)
+  | (msgs, ls) :: ss' =>
+    let impl_i := match impls with x :: _ => x | [] => SL [] end in
+    let r := framing_case (N.land mode 1) msgs ls [] impl_i in
+    let rr := streams_cases mode ss' (match impls with _ :: t => t | [] => [] end) in
+    (fst r :: fst rr, snd r && snd rr && match impls with [] => false | _ => true end)
+  end.
+Definition run_2007 (input impl : sx) : sx :=
+  match input with
+  | SL [SN mode; SL streams; SL _] =>
+    match sx_list dec_stream (SL streams) with
+    | Some ss =>
+      let impls := match impl with SL l => l | _ => [] end in
+      let r := streams_cases mode ss impls in
+      (* an anomaly output (#ffff ..) etc. is an SL whose elements are not stream results:
+         every framing_case then judges false *)
+      verdict (SL (fst r)) impl (snd r) (SL [])
+    | None => v_malformed
     end
   | _ => v_malformed
   end.
